@@ -20,6 +20,12 @@ pub trait VQueue: Sized {
             old(self).q().len() == 0 ==> r is None && final(self).q() == old(self).q(),
             old(self).q().len() > 0 ==> r == Some(old(self).q()[0]) && final(self).q() == old(self).q().skip(1);
     fn push_back(&mut self, m: DltMessage) ensures final(self).q() == old(self).q().push(m);
+    // not used by the pinned code; specified so that a change to them is decided, not lost
+    fn pop_back(&mut self) -> (r: Option<DltMessage>)
+        ensures
+            old(self).q().len() == 0 ==> r is None && final(self).q() == old(self).q(),
+            old(self).q().len() > 0 ==> r == Some(old(self).q().last()) && final(self).q() == old(self).q().drop_last();
+    fn push_front(&mut self, m: DltMessage) ensures final(self).q() == seq![m] + old(self).q();
     // `queue[0]`
     fn vx_first(&self) -> (r: &DltMessage) requires self.q().len() > 0, ensures *r == self.q()[0];
 }
@@ -52,7 +58,7 @@ pub open spec fn queue_inv<Q: VQueue, L: VIdSet>(lcs: &L, q: &Q) -> bool {
 // R1: after a merge removed the last buffered lifecycle: flush everything that is queued, before the current message
 //@ extract src/lifecycle/mod.rs region `>>let _removed = ecu_lcs.remove(` .. `$end` in fn parse_lifecycles_buffered_from_stream
 //@   sig pub fn flush_if_unbuffered<Q: VQueue, L: VIdSet, S: VSink>(buffered_lcs: &L, buffered_msgs: &mut Q, outflow: &mut S)
-//@   sub R11 `mark_lc_id_to_refresh(msg_lc, &mut lcs_to_refresh);` => ``
+//@   sub R11 `mark_lc_id_to_refresh(__);` => ``
 //@   sub R12 `outflow(msg)` => `outflow.send(msg)`
 //@   spec
 //@|    ensures
@@ -69,11 +75,11 @@ pub open spec fn queue_inv<Q: VQueue, L: VIdSet>(lcs: &L, q: &Q) -> bool {
 //@|    ensures
 //@|        nf ==> buffered_msgs.q().len() == 0,
 //@|    decreases buffered_msgs.q().len(),
-//@   hint before `let msg_lc = msg.lifecycle;`
+//@   hint loopstart 1
 //@|    let ghost lg = outflow.log();
-//@|    let ghost qq = buffered_msgs.q();
+//@|    let ghost qq0 = buffered_msgs.q();
 //@   hint loopend 1
-//@|    proof { if nf { assert(lg.push(msg) + qq =~= lg + (seq![msg] + qq)); } }
+//@|    proof { if nf { assert(qq0.len() > 0); assert(lg.push(qq0[0]) + qq0.skip(1) =~= lg + qq0); } }
 //@ end
 
 // R2: a buffered lifecycle is confirmed: it leaves buffered_lcs (publication to the lifecycle table cut, see C06), then the queue
@@ -84,7 +90,7 @@ pub open spec fn queue_inv<Q: VQueue, L: VIdSet>(lcs: &L, q: &Q) -> bool {
 //@   sub R12 `lcs_w.update(__)` => `lcs_w.vx_update(lc_id)`
 //@   cut R11 `last_lcw_refresh_index += 1;`
 //@   sub R8 `buffered_msgs[0].lifecycle` => `buffered_msgs.vx_first().lifecycle`
-//@   sub R11 `mark_lc_id_to_refresh(msg_lc, &mut lcs_to_refresh);` => ``
+//@   sub R11 `mark_lc_id_to_refresh(__);` => ``
 //@   sub R12 `outflow(msg)` => `outflow.send(msg)` x2
 //@   spec
 //@|    ensures
@@ -112,7 +118,7 @@ pub open spec fn queue_inv<Q: VQueue, L: VIdSet>(lcs: &L, q: &Q) -> bool {
 //@|    ensures
 //@|        nf ==> queue_inv(buffered_lcs, buffered_msgs), // O:queue.prune.inv.stop (the loop stops only when the queue is empty or its first message belongs to a buffered lifecycle)
 //@|    decreases buffered_msgs.q().len(),
-//@   hint before `let msg_lc =`
+//@   hint loopstart 1
 //@|    let ghost lg = outflow.log();
 //@|    let ghost qq = buffered_msgs.q();
 //@   hint loopend 1
@@ -144,7 +150,7 @@ pub open spec fn queue_inv<Q: VQueue, L: VIdSet>(lcs: &L, q: &Q) -> bool {
 //@ extract src/lifecycle/mod.rs region `for m in buffered_msgs.into_iter() {` .. `for m in buffered_msgs.into_iter() {` in fn parse_lifecycles_buffered_from_stream
 //@   sig pub fn final_flush<Q: VQueue, S: VSink>(mut buffered_msgs: Q, outflow: &mut S)
 //@   sub R13 `for m in buffered_msgs.into_iter() {` => `loop { let m = match buffered_msgs.pop_front() { Some(vx_m) => vx_m, None => break };`
-//@   sub R11 `mark_lc_id_to_refresh(m.lifecycle, &mut lcs_to_refresh);` => ``
+//@   sub R11 `mark_lc_id_to_refresh(__);` => ``
 //@   sub R12 `outflow(m)` => `outflow.send(m)`
 //@   spec
 //@|    ensures
